@@ -1383,10 +1383,32 @@ class Interp:
         scope.func = fn
         if isinstance(fn.node, ast.Lambda):
             return self.eval(fn.node.body, scope)
+        is_gen = getattr(fn, "_is_generator", None)
+        if is_gen is None:
+            is_gen = _contains_yield(fn.node)
+            fn._is_generator = is_gen
+        if is_gen:
+            # documented deviation: a generator function is run EAGERLY to completion when called and its values are
+            # handed out as a list (no interleaving with the consumer; exceptions surface at the call)
+            self.ctx.note("model: generator function %s executed eagerly (yielded values collected into a list)" % fn.qualname)
+            scope.yielded = self.ctx.alloc([])
+            try:
+                self.exec_body(fn.node.body, scope)
+            except ReturnSignal:
+                pass
+            return scope.yielded
         try:
             self.exec_body(fn.node.body, scope)
         except ReturnSignal as r:
             return r.value
+        return None
+
+    def e_Yield(self, node, scope):
+        if not hasattr(scope, "yielded"):
+            raise Unsupported("yield outside an eagerly executed generator")
+        v = self.eval(node.value, scope) if node.value is not None else None
+        scope.yielded.append(v)
+        self.ctx.recorded.append(("yield", v))
         return None
 
     # ---- exec / compile -----------------------------------------------------------------
@@ -1411,6 +1433,19 @@ class Interp:
             raise Unsupported("exec of %s" % type(code).__name__)
         scope = Scope("module", locals_, globals_, owner=owner)
         self.exec_body(code.tree.body, scope)
+
+
+def _contains_yield(fnode):
+    """does this function's own body (not nested functions) contain a yield?"""
+    stack = list(getattr(fnode, "body", []))
+    while stack:
+        n = stack.pop()
+        if isinstance(n, (ast.Yield, ast.YieldFrom)):
+            return True
+        if isinstance(n, (ast.FunctionDef, ast.AsyncFunctionDef, ast.Lambda, ast.ClassDef)):
+            continue
+        stack.extend(ast.iter_child_nodes(n))
+    return False
 
 
 class NativeBaseMethod:
